@@ -1,4 +1,6 @@
 from .movement import (  # noqa F401
+    above,
+    below,
     cross,
     crossover,
     crossunder,
@@ -17,6 +19,8 @@ from .movement import (  # noqa F401
 from .patterns import doji, dojistar, hammer, inverted_hammer  # noqa F401
 
 MOVEMENT_MAP = {
+    "above": above,
+    "below": below,
     "cross": cross,
     "crossover": crossover,
     "crossunder": crossunder,
